@@ -17,6 +17,7 @@ import Psa.Driver.RegIO
 import Psa.Driver.EncJsonIO
 import Psa.Driver.JTokIO
 import Psa.Driver.PTagIO
+import Psa.Driver.JTextIO
 namespace Psa.Driver
 open Psa
 
@@ -93,6 +94,8 @@ def runLine (l : String) : String :=
       | "jskip" => opJSkip args
       | "jkeys" => opJKeys args
       | "jtag" => opJTag args
+      | "jtext" => opJText args
+      | "jrender" => opJRender args
       | "reg" => opReg args
       | "dispatch-cbor" => opDispatchCbor args
       | "dispatch-json" => opDispatchJson args
